@@ -492,7 +492,7 @@ def run_shard(shard, tier, seed, acc) -> None:
         for k in (1, 2, 3):
             for cmds in itertools.product(base_cmds, repeat=k):
                 head = rpc.enc_vt(list(cmds))  # no END anywhere
-                for tail in (b"", b"\x00" * 4, b"\x00" * (65536 if k == 1 else 2048), (struct.pack("<HH", 0x55, 0)) * (1000 if k == 1 else 100), b"\xff" * 64):
+                for tail in (b"", b"\x00" * 4, b"\x00" * (65536 if k == 1 else 2048), (struct.pack("<HH", 0x55, 0)) * (1000 if k == 1 else 100), b"\xff" * 64, head * (4096 if k == 1 else 300), (b"\x00" * 4 + head) * (1024 if k == 1 else 100), (struct.pack("<HH", 0x55, 8) + head[:8]) * (4096 if k == 1 else 300)):  # ... and commands whose VALUE is the trailer signature;  # last two: the END-less trailer itself repeated (work must stay linear in the input)
                     if acc.too_many():
                         break
                     data = head + tail
